@@ -322,6 +322,25 @@ Proof.
   unfold Rdiv. rewrite Rmult_assoc, Rinv_l by lra. rewrite Rmult_1_r, Rmult_assoc, Hqq. exact Hr.
 Qed.
 
+(* v = 0: the observation is at most sqrt tol (and 0 if tol = 0) *)
+Theorem close_sqrt_sound_zero tol v s : close_sqrt tol v s = true -> Q2R v = 0 ->
+  0 <= Q2R s <= sqrt (Q2R tol).
+Proof.
+  intros H Hv. destruct (close_sqrt_sound_abs tol v s H ltac:(lra)) as [Hs B].
+  rewrite Hv, sqrt_0, Rminus_0_r in B. rewrite Rabs_pos_eq in B by exact Hs. lra.
+Qed.
+
+(* the form of DESIGN section 3: a tolerance rel * v on the square gives relative error rel on
+   the root, for every v >= 0 (v = 0 forces s = 0) *)
+Theorem close_sqrt_sound_design rel v s : close_sqrt (rel * v) v s = true -> 0 <= Q2R v ->
+  Rabs (Q2R s - sqrt (Q2R v)) <= Q2R rel * sqrt (Q2R v).
+Proof.
+  intros H Hv. destruct (Rle_lt_or_eq_dec _ _ Hv) as [P|Z].
+  - apply (close_sqrt_sound_rel _ _ _ _ H P). rewrite Q2R_mult. lra.
+  - destruct (close_sqrt_sound_abs _ _ _ H Hv) as [_ B]. rewrite Q2R_mult, <- Z, Rmult_0_r in B.
+    rewrite <- Z. rewrite sqrt_0 in *. lra.
+Qed.
+
 (* non-vacuity *)
 Example close_sqrt_ex : close_sqrt (1 # 100) 2 (1414 # 1000) = true.
 Proof. reflexivity. Qed.
@@ -349,3 +368,5 @@ Print Assumptions pQ_sound_R.
 Print Assumptions pX_sound_R.
 Print Assumptions xwithin_spec_R.
 Print Assumptions close_sound_rel_R.
+Print Assumptions close_sqrt_sound_zero.
+Print Assumptions close_sqrt_sound_design.
